@@ -7,6 +7,10 @@
 //   TS ang[3] p1[3] r1 p2[3] r2 cutoff   ContactTracker::SphereSphere::trackContact (untracked prior), sphere-1 frame rot(ang)
 //   TH ang[3] p1[3] p2[3] r cutoff       ContactTracker::HalfSpaceSphere::trackContact
 //        -> ok kind(0 none,1 circular point) depth normal[3] origin[3] radius  rotation[9]
+//   CC order kind2 r1[3] r2[3] c1[3] axis t phi offs[3] useQ Qang[3] tq[3]
+//        convex-convex detector through GeneralContactSubsystem: A = Ellipsoid(r1) at c1 (axis-aligned), B = Ellipsoid(r2) (kind2 0) or
+//        Sphere(r2[0]) (kind2 1) rotated by phi about the common axis, centred at c1 + t e_axis + offs; order 1 adds B before A;
+//        useQ 1 moves both by the rigid motion (rot(Qang), tq).   -> n {surf1 surf2 depth normal[3] location[3] radius} Q[9]
 //   SEARCH seed n                   implementation-only predicates (contact iff overlap, formulas, swap, rigid motion)
 #include "Simbody.h"
 #include <cstdio>
@@ -117,6 +121,20 @@ int main() {
                 else { c2.addBody(s2, w, ContactGeometry::Sphere(r), Transform(p2)); c2.addBody(s2, m2.updGround(), ContactGeometry::HalfSpace(), Transform(R, p1)); }
                 State st = sys2.realizeTopology(); sys2.realize(st, Stage::Dynamics);
                 prContacts(c2.getContacts(st, s2)); pr(R);
+            }
+            else if (k == "CC") {
+                const int order = (int)nx(); const int kind2 = (int)nx(); Vec3 r1 = nv(), r2 = nv(), c1 = nv(); const int axis = (int)nx(); const Real t = nx(), phi = nx();
+                Vec3 offs = nv(); const bool useQ = nx() != 0; Vec3 qa = nv(), tq = nv();
+                Vec3 e(0); e[axis] = 1; Transform TA(c1), TB(Rotation(phi, CoordinateAxis(axis)), c1 + t * e + offs);
+                Transform X; if (useQ) { X = Transform(rot(qa), tq); TA = X * TA; TB = X * TB; }
+                MultibodySystem sys; SimbodyMatterSubsystem m(sys); GeneralContactSubsystem c(sys); ContactSetIndex set = c.createContactSet();
+                Body::Rigid body(MassProperties(1.0, Vec3(0), Inertia(1)));
+                MobilizedBody::Weld w(m.updGround(), Transform(), body, Transform());
+                ContactGeometry gB = kind2 == 0 ? (ContactGeometry)ContactGeometry::Ellipsoid(r2) : (ContactGeometry)ContactGeometry::Sphere(r2[0]);
+                if (order == 0) { c.addBody(set, m.updGround(), ContactGeometry::Ellipsoid(r1), TA); c.addBody(set, w, gB, TB); }
+                else { c.addBody(set, w, gB, TB); c.addBody(set, m.updGround(), ContactGeometry::Ellipsoid(r1), TA); }
+                State st = sys.realizeTopology(); sys.realize(st, Stage::Dynamics);
+                prContacts(c.getContacts(st, set)); pr(X.R());
             }
             else if (k == "TS") { Rotation R = rot(nv()); Vec3 p1 = nv(); Real r1 = nx(); Vec3 p2 = nv(); Real r2 = nx(); Real cutoff = nx();
                 ContactTracker::SphereSphere tr; Contact cur; UntrackedContact prior(ContactSurfaceIndex(0), ContactSurfaceIndex(1));
